@@ -289,10 +289,39 @@ func taintFrom(root *ssa.Function, sources ...ssa.Value) *taintSet {
 			}
 		}
 	}
+	// calls of the function literals of root (immediately invoked or through a local): a tainted result of
+	// the literal taints the value of the call
+	litCalls := map[*ssa.Function][]ssa.Value{}
+	allInstrs(root, func(_ *ssa.Function, ins ssa.Instruction) {
+		c, ok := ins.(*ssa.Call)
+		if !ok || c.Call.IsInvoke() {
+			return
+		}
+		switch f := c.Call.Value.(type) {
+		case *ssa.MakeClosure:
+			if lit, ok := f.Fn.(*ssa.Function); ok {
+				litCalls[lit] = append(litCalls[lit], c)
+			}
+		case *ssa.Function:
+			if f.Parent() != nil {
+				litCalls[f] = append(litCalls[f], c)
+			}
+		}
+	})
 	for changed {
 		changed = false
 		allInstrs(root, func(_ *ssa.Function, ins ssa.Instruction) {
 			switch x := ins.(type) {
+			case *ssa.Return:
+				if x.Parent() != root {
+					for _, res := range x.Results {
+						if ts.vals[res] {
+							for _, cv := range litCalls[x.Parent()] {
+								mark(cv)
+							}
+						}
+					}
+				}
 			case *ssa.Store:
 				if ts.vals[x.Val] {
 					markCell(x.Addr)
@@ -398,4 +427,40 @@ func (ts *taintSet) has(v ssa.Value) bool { return ts.vals[v] }
 func shortName(mod, s string) string {
 	s = strings.ReplaceAll(s, mod+"/", "")
 	return strings.ReplaceAll(s, mod, ".")
+}
+
+// unitFns: fn together with the functions of its own package it calls statically (transitively, bounded):
+// the unit a maintainer can split a function into without changing behaviour. Rules that look for
+// constructs "in function F" look in the unit, so that extracting a helper does not hide them.
+func unitFns(fn *ssa.Function, depth int) []*ssa.Function {
+	seen := map[*ssa.Function]bool{}
+	var out []*ssa.Function
+	var add func(f *ssa.Function, d int)
+	add = func(f *ssa.Function, d int) {
+		if f == nil || seen[f] || len(f.Blocks) == 0 {
+			return
+		}
+		seen[f] = true
+		out = append(out, f)
+		if d >= depth {
+			return
+		}
+		for _, c := range callsIn(f, true) {
+			g := c.Common().StaticCallee()
+			if g == nil || g.Pkg == nil || g.Pkg != rootFn(fn).Pkg {
+				continue
+			}
+			add(g, d+1)
+		}
+	}
+	add(fn, 0)
+	return out
+}
+
+func unitBlocks(fn *ssa.Function, depth int) []*ssa.BasicBlock {
+	var out []*ssa.BasicBlock
+	for _, f := range unitFns(fn, depth) {
+		out = append(out, f.Blocks...)
+	}
+	return out
 }
